@@ -100,11 +100,13 @@ pub enum Tmpl {
     RS0,
     RSn,
     RS36,
+    /// fully hidden auto-replenishing reserve: RS(0,4,thr 1,amt 2,auto)
+    RSh,
     /// Standard order whose own price differs from the level's (C02 only)
     SX5,
 }
 
-pub const ALL_TMPL: [Tmpl; 14] = [
+pub const ALL_TMPL: [Tmpl; 15] = [
     Tmpl::S0,
     Tmpl::S3,
     Tmpl::S5,
@@ -119,6 +121,7 @@ pub const ALL_TMPL: [Tmpl; 14] = [
     Tmpl::RSd,
     Tmpl::RS0,
     Tmpl::RSn,
+    Tmpl::RSh,
 ];
 
 /// Timestamps: id 1 is *later* than ids 2 and 3 (not monotone in arrival order when 1 is added
@@ -254,6 +257,7 @@ pub fn mk_ts(t: Tmpl, idnum: u64, price: u64, timestamp: u64) -> Ord_ {
         Tmpl::RS0 => res(3, 2, 5, Some(0), true),
         Tmpl::RSn => res(2, 3, 1, Some(2), false),
         Tmpl::RS36 => res(3, 6, 2, Some(2), true),
+        Tmpl::RSh => res(0, 4, 1, Some(2), true),
     }
 }
 
